@@ -54,6 +54,10 @@ CHECKS = {
    text="MC_C05 combines Lifecycle.tla (invariant EditInvalidates: after any edit of the signed part the signatures no longer verify) with CJson.tla (the signed-bytes string encoding is injective, proved by TLC on all strings up to the bound; MC_C11 proves it for all 11 classes). TLC enumerates every single-field edit of a rich link (23 fields) and layout (28 fields) and every ordered pair of distinct near-collision strings; each scenario is executed on documents really signed by the library: after the edit verification with the signers' keys must fail and the canonical bytes must differ.",
    note="Trusted: TLC, ring, serde_json. Pairs of documents are generated by single edits and bounded string pairs, not all pairs of documents.",
    tech="TLA+ specs Lifecycle.tla + CJson.tla checked with TLC; spec->impl replay of every edit scenario through Metablock::verify"),
+ "C12": dict(cat="model_checking", ref="§4 C12, §3.5",
+   text="KeyId.tla models a key as its description (type, scheme, hash-algorithm list, material) with an injective intrinsic id, every public construction path as an action with its intended effect on the description, and key-table parsing. TLC enumerates all paths of length <= 4 per key type (invariants: material and type never change, JSON round trips are identities) and all tables over 3 keys with misfiled entries. Each path is run on every fixture key: key_id() must equal sha256 of an independently rendered description after every step, exports must be byte-identical to standard SubjectPublicKeyInfo built from RFC templates; each table is parsed in a layout and aliased entries are exercised end to end through in_toto_verify (a signature labelled X is only checked against the key whose id is X).",
+   note="Trusted: TLC, sha256 (ring), the DER templates of the harness, serde_json. Key material: committed fixture keys (9 ed25519, 3 P-256, 2+2 RSA).",
+   tech="TLA+ spec KeyId.tla model-checked with TLC; spec->impl replay of every path / table on real keys with independent id and SPKI oracles"),
  "C03": dict(cat="model_checking", ref="§4 C03, §3.3",
    text="Rules.tla transcribes the in-toto specification's artifact-rule algorithm (functional form and a state machine with one Apply step per rule; TLC checks that both agree, that the queue only shrinks and that a rule only consumes artifacts its pattern / source prefix matches). TLC enumerates rule lists x item link states x referenced-step states; every scenario is run through the real rule engine and the verdict must equal the specification's; seeded random scenarios beyond the bounds (up to 4+4 rules, 6 paths, nested prefixes) are validated step by step (consumed set and remaining queue after every rule, hook in rulelib.rs) against Trace_Rules.tla.",
    note="Trusted: TLC, glob::Pattern (default options) as fnmatch, the harness builders. Inputs restricted to C03's own quantifier: normalised relative paths, portable glob syntax; '[' only in DISALLOW. Bounds: 3 paths, 57-rule alphabet, rule lists <= 2 in TLC (<= 4+4 in traces).",
